@@ -508,8 +508,12 @@ func (ex *Exec) runBody(st *State, pc string) {
 				ex.panicSite(t.Pos(), what, "")
 				ex.pendingPanicVal = nil
 			default:
+				if r := ex.root(); r == ex && r.fc != nil && r.usesBefore && ex.siteCandidate(in) {
+					ex.preSiteSt = ex.curSt.clone() // before(e) in a site clause: e in the state before the instruction
+				}
 				ex.instr(in)
 				ex.siteHook(in)
+				ex.preSiteSt = nil
 			}
 		}
 		ex.out[b] = ex.curSt
@@ -1070,6 +1074,7 @@ func (eng *Engine) VerifyFunc(fn *ssa.Function, fc *FuncContract) (em *Emitter, 
 	}
 	ex.checkSitesExist(fc)
 	ex.checkScratchGhosts(fc, key)
+	ex.noteBefore(fc)
 	ex.fireEvent("entry")
 	for _, u := range fc.Uses {
 		ex.useAxiom(u, env, "true") // instances of manual axioms over the entry state
